@@ -21,6 +21,7 @@ VariantsOf(i) ==
             [src |-> i, v |-> v,
              bytes |-> Ser(IF Mode = "rewrite" THEN Compose(P.n, Seed * 101 + i * 1009 + v, 1 + (v % 3))
                            ELSE IF Mode = "defblocks" THEN DefBlocks(P.n, v - 1)
+                           ELSE IF Mode = "idle" THEN IdleBlock(P.n, v - 1)
                            ELSE IF Mode = "lengths" THEN MutLen(P.n, v - 1)
                            ELSE IF Mode = "lengths2" THEN MutLen2(P.n, v - 1)
                            ELSE IF Mode = "times" THEN MutTime(P.n, v - 1, Edges)
